@@ -128,6 +128,7 @@ pub fn run_history(make: &dyn Fn() -> Result<SpeechGenerator, Failure>, ops: &[O
     rep.nontrivial = (stepped_before_finish && finished) || stepped_past_end;
     rep.class_if(stepped_before_finish && finished, "finish-after-steps");
     rep.class_if(stepped_past_end, "step-past-end");
+    rep.class_if(stepped_before_finish && f > 2048, "streamed-utterance-over-2048-frames");
     rep.class(format!("frames:{}", match f { 0 => "0", 1..=4 => "1-4", 5..=40 => "5-40", _ => ">40" }));
     Ok(())
 }
@@ -149,7 +150,7 @@ impl Prop for RandomHistory {
         "random-history".into()
     }
     fn rule(&self) -> String {
-        "engine/utterance/condition as in C01 (0..12 labels; generated voices 92 %; phoneme alignment on in 25 % of the cases, mostly with time-stamped lines), Engine::synthesize == a fresh generator asked for everything, history of 0..40 ops over {Step(buffer fp..3fp), StepMany(n), Frames, Finish} interpreted against the reference model (one-shot waveform + cursor). Non-trivial: a Step before a Finish, or a Step past the end".into()
+        "engine/utterance/condition as in C01 (0..12 labels; generated voices 92 %; phoneme alignment on in 25 % of the cases, mostly with time-stamped lines), Engine::synthesize == a fresh generator asked for everything, history of 0..40 ops over {Step(buffer fp..3fp), StepMany(n), Frames, Finish} interpreted against the reference model (one-shot waveform + cursor); 2 %: 30..45 labels of the bundled voice at speed 0.25..0.32 with frame period 1..4, more than 2040 consecutive steps with the frame counter read after each, then Finish. Non-trivial: a Step before a Finish, or a Step past the end".into()
     }
     fn tape_len(&self, _: Tier) -> usize {
         12000
@@ -158,6 +159,19 @@ impl Prop for RandomHistory {
         tier.pick(4_000, 80_000)
     }
     fn decode(&self, t: &mut Tape, _: Tier) -> Case {
+        // 2 %: a long text streamed frame by frame - 30..45 labels of the bundled voice spoken slowly
+        // with a tiny frame period (2 400..4 500 frames, cheap to render), thousands of consecutive
+        // steps with the frame counter queried after each, then the rest in one call
+        if t.chance(0.02) {
+            let n = t.urange(30, 45);
+            let (labels, src) = crate::corpus::gen_label_lines(t, n, false);
+            let mut cond = crate::engine_case::Cond::default_for(3);
+            cond.speed = t.uniform(0.25, 0.32);
+            cond.fperiod = Some(t.urange(1, 4));
+            let base = crate::engine_case::EngineCase { voice: crate::engine_case::VoiceChoice::Bundled, source: src.name().into(), labels, cond };
+            let ops = vec![Op::StepMany(t.urange(2040, 2060)), Op::Frames, Op::Step(t.below(4)), Op::StepMany(t.urange(1, 300)), Op::Frames, Op::Finish];
+            return Case { base, ops, alignment: false, times: None };
+        }
         let base = gen_engine_case(t, 12, 8, false, GenOpts::default());
         let n = t.below(41);
         let mut ops = Vec::with_capacity(n);
@@ -210,7 +224,7 @@ impl Prop for RandomHistory {
             Ok(Err(e)) => fail!("generator", "generator failed: {}", e),
             Err(p) => fail!(p.signature(), "generator panicked: {}", p.msg),
         };
-        if frames > 3000 || frames * engine.condition.get_fperiod() > 1_500_000 {
+        if frames > 6000 || frames * engine.condition.get_fperiod() > 1_500_000 {
             return Ok(Report::rejected("too-long"));
         }
         let make = || -> Result<SpeechGenerator, Failure> {
